@@ -3,6 +3,7 @@
 #include <pthread.h>
 
 #include "lib.h"
+#include "ops.h"
 
 typedef enum {
   OP_ZERO, OP_COPY, OP_NEGATE, OP_ADD, OP_SUB, OP_ROTATE, OP_AUTO,
@@ -668,5 +669,14 @@ void run_C08(void) {
             }
       }
     }
+  }
+  // in-place rotations exactly 2^8 and 2^16 calls after the previous one on the ring (bookkeeping that outlives a call)
+  {
+    static const int64_t PA[] = {4, 8, -4, 16, 2, 12, 32, 1};
+    for (unsigned rep = 0; rep < (th ? 24u : 8u); rep++)
+      for (int which = 0; which <= 2; which += 2) {
+        const uint64_t N = rep & 1 ? 32 : 64;
+        ops_ring_history_case(which, N, PA[rep % 8], (rep & 2) ? N : 2, (rep & 2) ? 1 + 2 * (int64_t)(rep % 5) : 1, rep < 16, rep, "long_history_calls");
+      }
   }
 }
